@@ -25,6 +25,7 @@ def schedules(job, plan):
     push = list(head)
     if rng.chance(.35):
         push.append("stale %d" % rng.choice([1, 37, 300, 100000]))
+    push.append("eoistyle %d" % rng.below(4))  # how end-of-input is said and how the drain calls look (harness/cr/trace.c after_end)
     cap = [10 ** 9, 60, 3000, 10 ** 9][rng.below(4)]
     for i in range(rng.choice([3, 10, 40, 150])):
         il = min(rng.choice(sizes) if rng.chance(.6) else rng.below(3000), cap)
